@@ -222,79 +222,13 @@ where
 /// logical sequence, and summation has no reason to consult the hint at all):
 ///  11 (0, Some(0))   12 (usize::MAX, None)   13 (1, Some(1))   14 (n + 1, Some(n + 1))
 ///  15 (usize::MAX, Some(usize::MAX))
-pub const SUM_SHAPES: u8 = 16;
-
-pub struct Hinted<I> {
-    inner: I,
-    hint: (usize, Option<usize>),
-}
-impl<I: Iterator> Iterator for Hinted<I> {
-    type Item = I::Item;
-    fn next(&mut self) -> Option<I::Item> {
-        self.inner.next()
-    }
-    fn size_hint(&self) -> (usize, Option<usize>) {
-        self.hint
-    }
-}
-
-/// yields `items`, then None ONCE, then `extra` (an iterator need not be fused)
-pub struct NotFused<S> {
-    items: std::vec::IntoIter<S>,
-    extra: Option<S>,
-    said_none: bool,
-}
-impl<S> Iterator for NotFused<S> {
-    type Item = S;
-    fn next(&mut self) -> Option<S> {
-        if self.said_none {
-            return self.extra.take();
-        }
-        let x = self.items.next();
-        if x.is_none() {
-            self.said_none = true;
-        }
-        x
-    }
-}
+/// (the shape machinery itself now lives in the shared module `crate::shapes`, which every
+/// property's harness uses at its iterator hand-off sites - notes/ITERS.md; it adds the honest
+/// shapes 16 loose upper bound (0, Some(n + 3)), 17 peeked Peekable, 18 VecDeque::into_iter)
+pub const SUM_SHAPES: u8 = crate::shapes::SHAPES;
 
 pub fn sum_shaped<S: std::iter::Sum<S> + Clone>(shape: u8, items: Vec<S>) -> S {
-    let n = items.len();
-    let hinted = |items: Vec<S>, hint| Hinted { inner: items.into_iter(), hint };
-    match shape {
-        0 => items.into_iter().sum(),
-        1 => items.into_iter().filter(|_| true).sum(),
-        2 => hinted(items, (0, None)).sum(),
-        3 => {
-            let mut it = items.into_iter();
-            std::iter::from_fn(move || it.next()).sum()
-        }
-        4 => {
-            let mut first = items;
-            let second = first.split_off(n / 2);
-            first.into_iter().chain(second.into_iter().filter(|_| true)).sum()
-        }
-        5 => items.into_iter().flat_map(Some).sum(),
-        6 => items.into_iter().take_while(|_| true).skip_while(|_| false).sum(),
-        7 => {
-            let it: Box<dyn Iterator<Item = S>> = Box::new(items.into_iter().scan((), |_, x| Some(x)));
-            it.sum()
-        }
-        8 => hinted(items, (n, None)).sum(),
-        9 => {
-            let extra = items.first().cloned();
-            NotFused { items: items.into_iter(), extra, said_none: false }.sum()
-        }
-        10 => {
-            let mut it = items.into_iter().filter_map(Some);
-            S::sum(it.by_ref())
-        }
-        11 => hinted(items, (0, Some(0))).sum(),
-        12 => hinted(items, (usize::MAX, None)).sum(),
-        13 => hinted(items, (1, Some(1))).sum(),
-        14 => hinted(items, (n + 1, Some(n + 1))).sum(),
-        _ => hinted(items, (usize::MAX, Some(usize::MAX))).sum(),
-    }
+    crate::shapes::sum_shaped(shape, items)
 }
 
 pub fn has_sum<T>(prog: &[Ins<T>]) -> bool {
